@@ -1,14 +1,16 @@
 use crate::engine::{PropertyDef, Tier};
 
 pub mod c01;
+pub mod c04;
 pub mod c16;
 
 pub fn property(id: &str, tier: Tier) -> Option<PropertyDef> {
 	match id {
 		"C01" => Some(c01::def(tier)),
 		"C16" => Some(c16::def(tier)),
+		"C04" => Some(c04::def(tier)),
 		_ => None,
 	}
 }
 
-pub const ALL: &[&str] = &["C01", "C16"];
+pub const ALL: &[&str] = &["C01", "C04", "C16"];
